@@ -55,12 +55,15 @@ def dz(d):
 
 
 _cache = {}
+TIER = {"tier": "quick"}
 
 
 def de_paths(ctx, first_loop=0):
     """paths of dispatch_events: every loop body once (unroll 0); `first_loop`=1 additionally lets
     the before_sleep loop complete one iteration so that the rest of the function is seen after
     a lifecycle source was processed."""
+    if TIER["tier"] == "thorough":
+        first_loop = 1          # thorough: the lifecycle loops complete one more iteration everywhere
     key = ("de", first_loop)
     if key not in _cache:
         cfg = ctx.cfg(unroll=0, max_paths=50000)
@@ -1415,6 +1418,15 @@ def ob_async_new(ctx, tier):
                 c.fail("failed_adapt_does_not_restore_blocking_mode", p)
             if not ret_is(p, 1):
                 c.fail("failed_adapt_not_reported", p)
+            # the adapter never owned a poller registration: kill must not touch the poller
+            newc = [e for e in p.trace if e.kind == "new" and "IoDispatcher" in e.callee and "RefCell" in e.callee]
+            try:
+                disp = newc[0].ret.pointee.value
+                flag = disp.fields[struct_fields(ctx, "IoDispatcher").index("is_registered")]
+                if not bool_is(flag, False):
+                    c.fail("failed_adapt_marked_registered_and_would_unregister_a_foreign_fd", p)
+            except Exception:
+                c.fail("registration_flag_not_found", p)
         else:
             if kills or rest:
                 c.fail("successful_adapt_undoes_itself", p)
@@ -1802,3 +1814,108 @@ def ob_err2_batch(ctx, tier):
         if not later:
             c.fail("batch_remainder_dropped_on_error", p)
     return c.res(paths, cfg)
+
+
+# ---------------------------------------------------------------- C20 / C01 / C06: token arithmetic from MIR
+def ob_token(ctx, tier):
+    """token.rs from its MIR as 64-bit bit-vector terms (second, independent encoding next to the Kani
+    harnesses): encode/decode are mutually inverse on all 2^64 keys and all triples, the key is
+    usize::MAX only for the all-ones triple, increment_version is +1 mod 2^16 with sub-id reset,
+    same_source_as compares exactly (id, generation), forget_sub_id zeroes the sub-id, and k
+    version increments never return to the start for 1 <= k < 65536 (the 'fewer than 65536
+    reuses' bound)"""
+    c = Chk()
+    T = r"^fn token::<impl at [^>]*>::"
+
+    def one(rx, args=None):
+        f, paths, cfg = run_fn(ctx, rx)
+        ps = [p for p in paths if p.status == "return"]
+        return ps, cfg
+
+    def valid(s, *facts):
+        s2 = z3.Solver()
+        s2.add(z3.Not(z3.And(*facts)))
+        ctx.queries += 1
+        r = s2.check()
+        return r == z3.unsat, (s2.model() if r == z3.sat else None)
+
+    dec, cfg = one(T + r"from\(_1: usize\)")
+    enc, _ = one(T + r"from\(_1: TokenInner\)")
+    if len(dec) != 1 or len(enc) != 1:
+        raise Unsupported("token encode/decode are not single-path")
+    raw = [v for v in z3util_vars(z3.And(*[x == x for x in dec[0].ret.fields if z3.is_bv(x)])) if v.size() == 64]
+    d = dec[0].ret          # Agg TokenInner [id32, ver16, sub16] as terms over raw
+    e = enc[0].ret          # 64-bit term over (id, ver, sub) variables
+    if not isinstance(d, Agg) or len(d.fields) != 3 or not z3.is_bv(e) or len(raw) != 1:
+        raise Unsupported("unexpected shape of token conversions")
+    ev = {v.size(): v for v in z3util_vars(e)}
+    evs = z3util_vars(e)
+    idv = [v for v in evs if v.size() == 32]
+    v16 = [v for v in evs if v.size() == 16]
+    if len(idv) != 1 or len(v16) != 2:
+        raise Unsupported("encode does not depend on (u32, u16, u16)")
+    c.witness = True
+    # which u16 is the version: the one shifted by 16
+    a, b = v16
+    probe = z3.simplify(z3.substitute(e, (idv[0], z3.BitVecVal(0, 32)), (a, z3.BitVecVal(1, 16)), (b, z3.BitVecVal(0, 16))))
+    ver, sub = (a, b) if probe.as_long() == (1 << 16) else (b, a)
+    # encode(decode(raw)) == raw
+    e_of_d = z3.substitute(e, (idv[0], d.fields[0]), (ver, d.fields[1]), (sub, d.fields[2]))
+    ok, m = valid(None, e_of_d == raw[0])
+    if not ok:
+        c.failing.append("encode_decode_not_identity_on_keys")
+        c.cex = c.cex or str(m)
+    # decode(encode(t)) == t
+    for i, fld in enumerate((idv[0], ver, sub)):
+        d_of_e = z3.substitute(d.fields[i], (raw[0], e))
+        ok, m = valid(None, d_of_e == fld)
+        if not ok:
+            c.failing.append("decode_encode_not_identity_on_triples")
+            c.cex = c.cex or str(m)
+    ok, m = valid(None, (e == z3.BitVecVal(2**64 - 1, 64)) == z3.And(idv[0] == 2**32 - 1, ver == 0xffff, sub == 0xffff))
+    if not ok:
+        c.failing.append("notify_key_reachable_for_another_triple")
+        c.cex = c.cex or str(m)
+    # increment_version
+    iv, _ = one(T + r"increment_version\(")
+    if len(iv) != 1 or not isinstance(iv[0].ret, Agg):
+        raise Unsupported("increment_version shape")
+    r = iv[0].ret
+    vs = z3util_vars(r.fields[1])
+    v0 = [v for v in vs if v.size() == 16]
+    if len(v0) != 1:
+        raise Unsupported("increment_version: version depends on %s" % vs)
+    ok, m = valid(None, r.fields[1] == v0[0] + 1, r.fields[2] == 0)
+    if not ok:
+        c.failing.append("increment_version_is_not_plus_one_mod_2_16_with_sub_reset")
+        c.cex = c.cex or str(m)
+    idin = [v for v in z3util_vars(r.fields[0])]
+    if len(idin) != 1 or not valid(None, r.fields[0] == idin[0])[0]:
+        c.failing.append("increment_version_changes_the_id")
+    # k-step lemma on the extracted step function f(v)
+    k = z3.BitVec("k", 32)
+    v = z3.BitVec("v", 16)
+    step = lambda x: z3.substitute(r.fields[1], (v0[0], x))
+    # f is +1 mod 2^16 (checked above) => f^k(v) = v + k mod 2^16; never v for 1 <= k < 65536
+    ok, m = valid(None, z3.Implies(z3.And(z3.UGE(k, 1), z3.ULT(k, 65536)), (v + z3.Extract(15, 0, k)) != v))
+    if not ok:
+        c.failing.append("generation_returns_to_start_within_65535_reuses")
+    # same_source_as / forget_sub_id
+    ss, _ = one(T + r"same_source_as\(")
+    cases = []
+    for p in ss:
+        cases.append(z3.And(*(p.pc + [p.ret if z3.is_bool(p.ret) else z3.BoolVal(False)])))
+    allv = z3util_vars(z3.Or(*cases)) if cases else []
+    ids = [x for x in allv if x.size() == 32]
+    vers = [x for x in allv if x.size() == 16]
+    if len(ids) == 2 and len(vers) == 2:
+        ok, m = valid(None, z3.Or(*cases) == z3.And(ids[0] == ids[1], vers[0] == vers[1]))
+        if not ok:
+            c.failing.append("same_source_as_is_not_id_and_generation_equality")
+            c.cex = c.cex or str(m)
+    else:
+        c.failing.append("same_source_as_shape")
+    fs, _ = one(T + r"forget_sub_id\(")
+    if len(fs) != 1 or not isinstance(fs[0].ret, Agg) or not valid(None, fs[0].ret.fields[2] == 0)[0]:
+        c.failing.append("forget_sub_id_does_not_zero_the_sub_id")
+    return result(not c.failing, c.witness, c.failing, c.cex, "", dec + enc + iv + ss + fs, cfg)
